@@ -119,3 +119,7 @@ mod tests {
         assert_eq!(buffered.poll_next_unpin(&mut cx), Poll::Ready(None));
     }
 }
+
+#[cfg(futures_buffered_verif)]
+#[path = "/verif/hooks/buffered_ordered.rs"]
+mod verif_hooks;
